@@ -210,9 +210,9 @@ func TestC13(t *testing.T) {
 		fmt.Println("REPLAY case passed:", c)
 		return
 	}
-	ev.Rule("XYZ lattice over [-0.5,2]^3 (64^3 quick, 256^3 thorough) and rapid float32 triples, x whites {D50, D65, rapid positive whites with components in [0.5,2]}; junction sweeps of 4000 consecutive float32 values centred on white*216/24389 on each axis; multiples t*white for t in (0,2]; Lab box L in [-10,110], a,b in [-200,200] for the inverse; (Y, next float) pairs for monotone L*; very large finite XYZ for finiteness. non-trivial = distinct case with a component outside [0,1], a ratio within 1e-3 of the junction, a non-standard white, or any non-ToLAB kind")
-	ev.Assume("float64 CIE 1976 formulas in internal/ref (math.Cbrt, eps=216/24389, kappa=24389/27); whites >= 0.5 per component so that the stated tolerances are satisfiable by a float32 result")
-	whites := [][3]float32{D50, D65, {0.5, 0.5, 0.5}, {2, 2, 2}, {0.7, 1, 1.9}, {1.3, 0.55, 0.8}}
+	ev.Rule("XYZ lattice over [-0.5,2]^3 (64^3 quick, 256^3 thorough) and rapid float32 triples, x whites {D50, D65, rapid positive whites with components in [0.5,2], lopsided whites with components log-uniform in [1e-4, 3.2] and the colour given relative to the white}; junction sweeps of 4000 consecutive float32 values centred on white*216/24389 on each axis; multiples t*white for t in (0,2]; Lab box L in [-10,110], a,b in [-200,200] for the inverse; (Y, next float) pairs for monotone L*; very large finite XYZ for finiteness. non-trivial = distinct case with a component outside [0,1], a ratio within 1e-3 of the junction, a non-standard white, or any non-ToLAB kind")
+	ev.Assume("float64 CIE 1976 formulas in internal/ref (math.Cbrt, eps=216/24389, kappa=24389/27); colour/white ratios within about [-1, 4] (whites >= 0.5 per component for colours in [-0.5,2]^3; for smaller whites the colour is drawn relative to the white) so that the stated tolerances are satisfiable by a float32 result")
+	whites := [][3]float32{D50, D65, {0.5, 0.5, 0.5}, {2, 2, 2}, {0.7, 1, 1.9}, {1.3, 0.55, 0.8}, {1.3233, 1, 0.0023}, {0.004, 0.9, 1.2}}
 	n := ev.Pick(64, 256)
 	for _, w := range whites[:ev.Pick(2, 4)] {
 		var wg sync.WaitGroup
@@ -411,14 +411,26 @@ func TestC13(t *testing.T) {
 			c.Kind = "scale"
 			c.Axis = rapid.IntRange(-40, 40).Draw(rt, "exp2")
 		}
-		switch rapid.IntRange(0, 2).Draw(rt, "white") {
+		switch rapid.IntRange(0, 3).Draw(rt, "white") {
 		case 0:
 			c.White = D50
 		case 1:
 			c.White = D65
-		default:
+		case 2:
 			for i := range c.White {
 				c.White[i] = rapid.Float32Range(0.5, 2).Draw(rt, "w")
+			}
+		default:
+			// lopsided whites: saturated light sources, narrow-band lamps, whites given in other units - each component
+			// anywhere between 1e-4 and 3, independently.  The colour is then taken relative to THAT white (the drawn
+			// components become ratios), so Lab stays in the range a float32 result can resolve to 1e-3
+			for i := range c.White {
+				c.White[i] = float32(math.Pow(10, rapid.Float64Range(-4, 0.5).Draw(rt, "wexp")))
+			}
+			if c.Kind == "tolab" || c.Kind == "scale" || c.Kind == "monotone" {
+				for i := range c.V {
+					c.V[i] *= c.White[i]
+				}
 			}
 		}
 		// a sixth of the forward cases are near-neutral: a multiple of the white whose X and Z are off by a relative
